@@ -618,6 +618,10 @@ func (gen *Generator) GenerateInclude(args []Sexp) error {
 	return nil
 }
 
+const maxMacroExpansionDepth = 1000
+
+var macroExpansionDepth int
+
 func (gen *Generator) GenerateCallBySymbol(sym *SexpSymbol, args []Sexp, orig Sexp) error {
 	switch sym.name {
 	case "and":
@@ -686,6 +690,15 @@ func (gen *Generator) GenerateCallBySymbol(sym *SexpSymbol, args []Sexp, orig Se
 
 		if err != nil {
 			return err
+		}
+		// a macro whose expansion contains a call of itself expands
+		// forever; the recursion happens here in the compiler, outside
+		// the VM loop, and ended in a fatal Go stack overflow that takes
+		// the host process down. Give up with an error instead.
+		macroExpansionDepth++
+		defer func() { macroExpansionDepth-- }()
+		if macroExpansionDepth > maxMacroExpansionDepth {
+			return fmt.Errorf("macro expansion of '%s' nested deeper than %d levels (a macro that expands into itself?)", sym.name, maxMacroExpansionDepth)
 		}
 		return gen.Generate(expr)
 	}
